@@ -18,3 +18,46 @@ distribution = poolcases.distribution
 def gen(rng, tier):
     n = {"quick": 120, "thorough": 1500, "search": 600}[tier]
     return [poolcases.gen_case(rng, npools=1 if i % 3 else 2) for i in range(n)]
+
+
+def extra(tier, rng, build_cache, known):
+    """The forced schedule the property asks for (hook H3): the task completes between the waiter's
+    first result check and its registration. The waiter must return the task's own outcome promptly
+    (well before its 1.5 s timeout). Real threads, one case per process."""
+    from .. import core
+    key = ((), False)
+    if key not in build_cache:
+        build_cache[key], _ = core.build_harness((), False)
+    bodies = [[{"i": "return", "v": "7"}], [{"i": "panic", "k": "owned", "m": 3}],
+              [{"i": "log", "k": 1}, {"i": "tick", "d": "1000"}, {"i": "return", "v": "2147483648"}]]
+    if tier != "quick":
+        bodies += [[{"i": "panic", "k": "static", "m": 9}], [{"i": "panic", "k": "other", "m": 0}], []]
+    cases = []
+    for i, b in enumerate(bodies):
+        cases.append({"id": i, "clock": "0", "pools": [[0, 4, 0]], "origin": "extra", "kind": "forced_wait",
+                      "ops": [{"op": "submit", "p": 0, "body": b, "prio": None},
+                              {"op": "forced_wait", "p": 0, "t": 0}]})
+    res = core.run_harness(build_cache[key], AREA, cases, isolate=True, timeout_ms=15000, jobs=4)
+    viol, ok = [], 0
+    for c in cases:
+        r = res[c["id"]]
+        fw = r[1] if len(r) > 1 and isinstance(r[1], dict) else None
+        b = c["ops"][0]["body"]
+        last = b[-1] if b else {"i": "return", "v": "0"}
+        if last["i"] == "return":
+            want = {"val": {"ok": last["v"]}}
+        elif last["i"] == "panic":
+            want = {"val": {"err": "nomsg" if last["k"] == "other" else {"k": last["m"]}}}
+        else:
+            want = {"val": {"ok": "0"}}
+        if fw is None or not fw.get("h3"):
+            viol.append({"case": c, "obs": r, "note": "forced schedule not reached"})
+        elif fw["forced_wait"] != want:
+            viol.append({"case": c, "obs": r, "note": "the wait did not return the task's own outcome"})
+        elif not fw.get("prompt"):
+            viol.append({"case": c, "obs": r, "tags": ["lost_wakeup_check_register"],
+                         "note": "the task completed between check and registration and the waiter slept %s ms"
+                                 % fw.get("elapsed_ms")})
+        else:
+            ok += 1
+    return {"info": {"forced_schedule_runs": len(cases), "forced_schedule_prompt": ok}, "violations": viol}
